@@ -39,6 +39,8 @@ type vfCStream struct {
 	broken        bool
 	respClosed    bool
 	err           error
+	// violate: every answer to an operation request also carries a result for an id that was never sent
+	violate bool
 }
 
 func vfNewCStream() *vfCStream {
@@ -79,6 +81,9 @@ func (s *vfCStream) Send(m *spb.ModifyRequest) error {
 		r := &spb.ModifyResponse{}
 		for _, o := range m.Operation {
 			r.Result = append(r.Result, &spb.AFTResult{Id: o.Id, Status: spb.AFTResult_RIB_PROGRAMMED})
+		}
+		if s.violate {
+			r.Result = append(r.Result, &spb.AFTResult{Id: 1 << 40, Status: spb.AFTResult_RIB_PROGRAMMED})
 		}
 		s.resp <- r
 	}
